@@ -29,7 +29,8 @@ CKeywords == {"double", "int", "const", "void", "char", "float", "static", "stru
 Ordinary == {"x0", "x2", "x1", "Vm", "E", "I", "S", "N", "beta", "gamma", "Symbol", "oo", "_values_0", "_values_1", "zq_linearized", "g_to", "Gto", "expo", "pit", "logA"}
 Universe == TemplateLocals \cup PyKeywords \cup CKeywords \cup Ordinary
 Reserved == TemplateLocals \cup PyKeywords \cup CKeywords
-Roles == {"state", "param", "inter"}
+\* "unused": a parameter that no expression reads (the generated functions unpack it all the same)
+Roles == {"state", "param", "inter", "unused"}
 Fresh == "zq"
 
 \* the model with identifier id in role r
@@ -38,7 +39,7 @@ ModelOf(id, r) ==
       p == IF r = "param" THEN id ELSE "a"
       w == IF r = "inter" THEN id ELSE "w"
   IN [blocks |-> << [k |-> "states", comp |-> "", entries |-> <<[name |-> s, e |-> N("1.5")], [name |-> "y", e |-> N("0.5")]>>],
-                    [k |-> "parameters", comp |-> "", entries |-> <<[name |-> p, e |-> N("2")]>>],
+                    [k |-> "parameters", comp |-> "", entries |-> <<[name |-> p, e |-> N("2")]>> \o (IF r = "unused" THEN <<[name |-> id, e |-> N("3")]>> ELSE <<>>)],
                     [k |-> "expressions", comp |-> "", entries |->
                         <<[name |-> w, e |-> LET A == Bn("add", Bn("mul", Var(p), Var(s)), Var("y")) IN Bn("mul", A, A)],   \* a repeated sub-expression
                           \* two statements that do not mention the identifier, the second with a repeated sub-expression,
@@ -75,7 +76,8 @@ Run(m_id, r, scheme) ==
       w == IF r = "inter" THEN m_id ELSE "w"
       e1 == IF ArrayOk(Env0, "states") THEN Bind(Env0, s, Inp.s) ELSE Env0
       e2 == Bind(e1, "y", IF ArrayOk(e1, "states") THEN Inp.y ELSE Poison)
-      e3 == Bind(e2, p, IF ArrayOk(e2, "parameters") THEN Inp.p ELSE Poison)
+      e3p == Bind(e2, p, IF ArrayOk(e2, "parameters") THEN Inp.p ELSE Poison)
+      e3 == IF r = "unused" THEN Bind(e3p, m_id, IF ArrayOk(e3p, "parameters") THEN Q(3,1) ELSE Poison) ELSE e3p
       V(env, n) == LET v == Get(env, n) IN IF v = TPL THEN Poison ELSE v
       av == Arith("add", Arith("mul", V(e3, p), V(e3, s)), V(e3, "y"))
       wv == Arith("mul", av, av)
@@ -98,7 +100,8 @@ Captures == \E sc \in {"rhs", "explicit_euler"} : Run(id, role, sc) # Run(Fresh,
 
 mi == Info(ModelOf(Fresh, role))
 FInp == [t |-> Inp.t, dt |-> Inp.dt, states |-> (IF role = "state" THEN (Fresh :> Inp.s) ELSE ("x" :> Inp.s)) @@ ("y" :> Inp.y),
-         params |-> IF role = "param" THEN (Fresh :> Inp.p) ELSE ("a" :> Inp.p), missing |-> <<>>]
+         params |-> IF role = "param" THEN (Fresh :> Inp.p) ELSE IF role = "unused" THEN ("a" :> Inp.p) @@ (Fresh :> Q(3,1)) ELSE ("a" :> Inp.p),
+         missing |-> <<>>]
 RenameKey(f) == [n \in {IF k = Fresh THEN "ID" ELSE IF k = DName(Fresh) THEN "dID_dt" ELSE k : k \in DOMAIN f} |->
                    IF n = "ID" THEN f[Fresh] ELSE IF n = "dID_dt" THEN f[DName(Fresh)] ELSE f[n]]
 Emit == Done => PrintT(ToJson([id |-> id, role |-> role, reserved |-> (id \in Reserved), spec_outcome |-> Outcome, spec_captures |-> Captures,
